@@ -28,7 +28,7 @@ def getOptNat (j : Json) (k : String) : Except String (Option Nat) :=
 
 def evJson : Ev → Json
   | .cmd n => Json.str n
-  | .add p => Json.str ("add:" ++ String.ofList p)
+  | .add _ => Json.str "add"
   | .preHook o n => Json.str ("pre_hook:" ++ String.ofList o ++ ":" ++ String.ofList n)
   | .postHook o n => Json.str ("post_hook:" ++ String.ofList o ++ ":" ++ String.ofList n)
   | .rewrite => Json.str "rewrite"
